@@ -214,6 +214,42 @@ def r3_prefilter(cx):
         fn = sf.func("%s.create_args" % cname, "C07.R3")
         lists = [n for n in walk_body(fn.body) if isinstance(n, ast.List) and n.elts and const_str(n.elts[0]) == "grep"]
         if not lists:
+            # the argv may be built by a shared method: self.<m>(<targets>) returning  <constant prefix> + [<patterns>] + list(<targets>).  Its value is
+            # folded into one list display (constants from module constants, the helper's single-assignment locals substituted, *targets from the call)
+            cls_ = sf.get(cname) if sf.has(cname) else None
+            for c_ in [x for x in find_calls(fn.body) if isinstance(x.func, ast.Attribute) and U(x.func.value) == "self" and cls_ is not None]:
+                k_, meth = cx.repo.lookup_method(cls_, c_.func.attr)
+                if meth is None or not meth.args.vararg or meth.args.kwarg or len(meth.args.args) != 1 or c_.keywords:
+                    continue
+                rets_ = [r_ for r_ in walk_body(meth.body) if isinstance(r_, ast.Return)]
+                if len(rets_) != 1:
+                    continue
+                elts, okf = [], True
+
+                def _flat(e_):
+                    global_ok = True
+                    if isinstance(e_, ast.BinOp) and isinstance(e_.op, ast.Add):
+                        return _flat(e_.left) and _flat(e_.right)
+                    if isinstance(e_, ast.Call) and call_name(e_) in ("list", "tuple") and len(e_.args) == 1:
+                        return _flat(e_.args[0])
+                    if isinstance(e_, ast.Name) and e_.id == meth.args.vararg.arg:
+                        elts.extend(c_.args)
+                        return True
+                    if isinstance(e_, ast.Name):
+                        v_ = feat.resolve_const(sf, meth, e_)
+                        return v_ is not e_ and _flat(v_)
+                    if isinstance(e_, (ast.List, ast.Tuple)):
+                        for x_ in e_.elts:
+                            if isinstance(x_, ast.Name):
+                                x_ = feat.resolve_const(sf, meth, x_)
+                            elts.append(x_)
+                        return True
+                    return False
+                if _flat(rets_[0].value) and elts and const_str(elts[0]) == "grep":
+                    lst_ = ast.List(elts=elts, ctx=ast.Load())
+                    ast.copy_location(lst_, c_)
+                    lists.append(lst_)
+        if not lists:
             cx.bad(fn, "%s.create_args builds a grep pre-filter" % cname, construct="(no ['grep', ...] argv)")
             continue
         for lst in lists:
